@@ -289,7 +289,7 @@ Section Inv.
   Variable copy_one : copy_fn.
   Hypothesis HC : copy_contract copy_one.
   Variable tab : table.
-  Variables (dest : string) (fs0 : fsT).
+  Variables (dest : string) (fs0 : fsT) (avoid0 : list path).
 
   Definition nonleave (e : log_entry) : bool := negb (way_eqb (snd e) Leave).
   Definition dpath (e : log_entry) : path := snd (snd (fst e)).
@@ -315,15 +315,17 @@ Section Inv.
     g3 : forall e, In e h -> entry_ok fs e;
     g4 : NoDup (dsts h);
     g5 : incl (dsts h) avoid;
-    g6 : forall p, ino_of fs p <> None -> ino_of fs0 p <> None \/ In p (dsts h)
+    g6 : forall p, ino_of fs p <> None -> ino_of fs0 p <> None \/ In p (dsts h);
+    g7 : incl avoid0 avoid
   }.
 
-  Lemma ginv_init : ginv fs0 [] [].
+  Lemma ginv_init : ginv fs0 avoid0 [].
   Proof.
     split; auto.
     - intros e [].
     - constructor.
     - intros p [].
+    - apply incl_refl.
   Qed.
 
   Lemma entry_ok_frame fs fs' x e :
@@ -352,12 +354,12 @@ Section Inv.
     intros G SRC E.
     destruct (way_eqb w Leave) eqn:WL.
     - destruct w; try discriminate. apply HC in E. destruct E as [_ (-> & -> & ->)].
-      destruct G as [G1 G2 G3 G4 G5 G6].
+      destruct G as [G1 G2 G3 G4 G5 G6 G7].
       split; auto. intros e [<-|I]; [reflexivity|auto].
     - assert (w <> Leave) as NL by (intros ->; discriminate).
       pose proof (created_of_contract _ HC _ _ _ _ _ _ _ _ _ _ E NL) as
         (C1 & C2 & C3 & C4 & C5 & C6 & C7 & i & C8 & C9).
-      destruct G as [G1 G2 G3 G4 G5 G6].
+      destruct G as [G1 G2 G3 G4 G5 G6 G7].
       assert (dsts ((f, f', w) :: h) = snd f' :: dsts h) as DS
         by (unfold dsts; cbn [filter]; unfold nonleave at 1; cbn [snd]; rewrite WL; reflexivity).
       assert (forall p i, ino_of fs p = Some i -> p <> snd f') as NE
@@ -381,6 +383,7 @@ Section Inv.
       + rewrite DS. intros p I. destruct (path_eqb (snd f') p) eqn:X.
         * apply path_eqb_spec in X. subst. right. now left.
         * apply path_eqb_neq in X. rewrite C6 in I by congruence. apply G6 in I. destruct I; [auto|right; now right].
+      + intros p I. apply C5. right. now apply G7.
   Qed.
 End Inv.
 
@@ -399,7 +402,7 @@ Section Field.
   Variable copy_one : copy_fn.
   Hypothesis HC : copy_contract copy_one.
   Variable tab : table.
-  Variables (dest : string) (fs0 : fsT) (m sup : cmode).
+  Variables (dest : string) (fs0 : fsT) (avoid0 : list path) (m sup : cmode).
 
   Record minv (memo : list (fileset * fileset)) (lg : list log_entry)
          (done : list (fileset * fileset)) : Prop := {
@@ -415,10 +418,10 @@ Section Field.
   Proof. split; cbn; try tauto; try discriminate. constructor. Qed.
 
   Lemma field_step s f f' s' hprev done :
-    ginv dest fs0 (s_fs s) (s_avoid s) (s_log s ++ hprev) -> minv (s_memo s) (s_log s) done ->
+    ginv dest fs0 avoid0 (s_fs s) (s_avoid s) (s_log s ++ hprev) -> minv (s_memo s) (s_log s) done ->
     ino_of fs0 (snd f) <> None ->
     copy_fileset copy_one tab dest m sup f s = Ok (f', s') ->
-    ginv dest fs0 (s_fs s') (s_avoid s') (s_log s' ++ hprev)
+    ginv dest fs0 avoid0 (s_fs s') (s_avoid s') (s_log s' ++ hprev)
     /\ minv (s_memo s') (s_log s') (done ++ [(f, f')]).
   Proof.
     intros G M SRC. unfold copy_fileset.
@@ -452,10 +455,10 @@ Section Field.
   Qed.
 
   Lemma field_run l : forall s l' s' hprev done,
-    ginv dest fs0 (s_fs s) (s_avoid s) (s_log s ++ hprev) -> minv (s_memo s) (s_log s) done ->
+    ginv dest fs0 avoid0 (s_fs s) (s_avoid s) (s_log s ++ hprev) -> minv (s_memo s) (s_log s) done ->
     (forall f, In f l -> ino_of fs0 (snd f) <> None) ->
     run (copy_fileset copy_one tab dest m sup) l s = Ok (l', s') ->
-    ginv dest fs0 (s_fs s') (s_avoid s') (s_log s' ++ hprev)
+    ginv dest fs0 avoid0 (s_fs s') (s_avoid s') (s_log s' ++ hprev)
     /\ minv (s_memo s') (s_log s') (done ++ combine l l')
     /\ List.length l' = List.length l.
   Proof.
@@ -479,9 +482,9 @@ Section Field.
     /\ (forall s d w, In (s, d, w) lg -> allowed w m = true /\ allowed w (narrow tab dest s sup) = true).
 
   Lemma nested_ok v avoid fs hprev v' fs1 av1 lg :
-    ginv dest fs0 fs avoid hprev -> (forall f, In f (leaves v) -> ino_of fs0 (snd f) <> None) ->
+    ginv dest fs0 avoid0 fs avoid hprev -> (forall f, In f (leaves v) -> ino_of fs0 (snd f) <> None) ->
     copy_nested_files copy_one tab v dest m sup avoid fs = Ok (v', fs1, av1, lg) ->
-    ginv dest fs0 fs1 av1 (lg ++ hprev) /\ field_ok v v' lg.
+    ginv dest fs0 avoid0 fs1 av1 (lg ++ hprev) /\ field_ok v v' lg.
   Proof.
     intros G SRC. unfold copy_nested_files.
     pose proof (apply_files_run (copy_fileset copy_one tab dest m sup) v (mkst fs avoid [] [])) as T.
@@ -536,16 +539,16 @@ Section Final.
   Variable copy_one : copy_fn.
   Hypothesis HC : copy_contract copy_one.
   Variable tab : table.
-  Variables (dest : string) (fs0 : fsT).
+  Variables (dest : string) (fs0 : fsT) (avoid0 : list path).
 
   (* what a logged call means observably, at the end *)
   Lemma entry_facts fs1 av H s d w :
-    ginv dest fs0 fs1 av H -> In (s, d, w) H ->
+    ginv dest fs0 avoid0 fs1 av H -> In (s, d, w) H ->
     behaves w dest fs0 fs1 s d /\
     (w <> Leave -> fst d = fst s /\ fst (snd d) = dest /\ read fs0 (snd s) <> None
                    /\ read fs1 (snd d) = read fs0 (snd s) /\ read fs1 (snd s) = read fs0 (snd s)).
   Proof.
-    intros [G1 G2 G3 G4 G5 G6] I. specialize (G3 _ I). unfold entry_ok in G3.
+    intros [G1 G2 G3 G4 G5 G6 G7] I. specialize (G3 _ I). unfold entry_ok in G3.
     assert (forall i, ino_of fs0 (snd s) = Some i ->
               read fs0 (snd s) = Some (data_of fs0 i) /\ read fs1 (snd s) = Some (data_of fs0 i)) as RS.
     { intros i E. unfold read. rewrite E, (G1 _ _ E). cbn. split; [reflexivity|]. f_equal. apply G2. eauto. }
@@ -577,22 +580,22 @@ Section Final.
   Qed.
 
   Lemma entries_inj fs1 av H s1 d1 w1 s2 d2 w2 :
-    ginv dest fs0 fs1 av H -> In (s1, d1, w1) H -> In (s2, d2, w2) H ->
+    ginv dest fs0 avoid0 fs1 av H -> In (s1, d1, w1) H -> In (s2, d2, w2) H ->
     w1 <> Leave -> w2 <> Leave -> snd d1 = snd d2 -> s1 = s2.
   Proof.
     intros G I1 I2 N1 N2 E.
     assert (forall s d w, w <> Leave -> In (s, d, w) H -> In (s, d, w) (filter nonleave H)) as F.
     { intros s d w N I. apply filter_In. split; [assumption|]. unfold nonleave; cbn. now destruct w. }
-    pose proof (nodup_map_inj dpath _ _ _ (g4 _ _ _ _ _ G) (F _ _ _ N1 I1) (F _ _ _ N2 I2) E) as X.
+    pose proof (nodup_map_inj dpath _ _ _ (g4 _ _ _ _ _ _ G) (F _ _ _ N1 I1) (F _ _ _ N2 I2) E) as X.
     now inversion X.
   Qed.
 
   (* ------------------------------------------------------------ C33 *)
   Lemma copyfile_fields_ok fields : forall avoid fs hprev outs fs2 av2,
-    ginv dest fs0 fs avoid hprev ->
+    ginv dest fs0 avoid0 fs avoid hprev ->
     (forall v f, In v fields -> In f (leaves v) -> ino_of fs0 (snd f) <> None) ->
     copyfile_fields copy_one tab dest fields avoid fs = Ok (outs, fs2, av2) ->
-    exists H, ginv dest fs0 fs2 av2 (H ++ hprev) /\
+    exists H, ginv dest fs0 avoid0 fs2 av2 (H ++ hprev) /\
       Forall2 (fun v o => field_ok tab dest mode_hardlink_or_copy mode_any v (fst o) (snd o)
                           /\ incl (snd o) (H ++ hprev)) fields outs.
   Proof.
@@ -618,10 +621,10 @@ Section Final.
 
   Theorem copyfile_workflow_collected fields outs fs1 av1 :
     (forall v f, In v fields -> In f (leaves v) -> ino_of fs0 (snd f) <> None) ->
-    copyfile_workflow copy_one tab dest fields fs0 = Ok (outs, fs1, av1) ->
+    copyfile_fields copy_one tab dest fields avoid0 fs0 = Ok (outs, fs1, av1) ->
     collected tab dest fs0 fs1 fields (map fst outs).
   Proof.
-    intros SRC E. unfold copyfile_workflow in E.
+    intros SRC E.
     eapply (copyfile_fields_ok _ _ _ []) in E; eauto using ginv_init.
     destruct E as (H & G & F). rewrite app_nil_r in *.
     assert (forall s d, In (s, d) (all_pairs fields (map fst outs)) ->
@@ -641,11 +644,11 @@ Section Final.
 
   (* ------------------------------------------------------------ C34 *)
   Lemma job_fields_ok fields : forall avoid fs hprev outs fs2 av2,
-    ginv dest fs0 fs avoid hprev ->
+    ginv dest fs0 avoid0 fs avoid hprev ->
     (forall fd f, In fd fields -> is_staged fd = true -> In f (leaves (fd_value fd)) ->
                   ino_of fs0 (snd f) <> None) ->
     job_fields copy_one tab dest fields avoid fs = Ok (outs, fs2, av2) ->
-    exists H, ginv dest fs0 fs2 av2 (H ++ hprev) /\
+    exists H, ginv dest fs0 avoid0 fs2 av2 (H ++ hprev) /\
       Forall2 (fun fd o => if is_staged fd
                            then field_ok tab dest (fd_mode fd) mode_any (fd_value fd) (fst o) (snd o)
                                 /\ incl (snd o) (H ++ hprev)
@@ -674,10 +677,10 @@ Section Final.
   Theorem job_inputs_staged fields outs fs1 av1 :
     (forall fd f, In fd fields -> is_staged fd = true -> In f (leaves (fd_value fd)) ->
                   ino_of fs0 (snd f) <> None) ->
-    job_inputs copy_one tab dest fields fs0 = Ok (outs, fs1, av1) ->
+    job_fields copy_one tab dest fields avoid0 fs0 = Ok (outs, fs1, av1) ->
     staged tab dest fs0 fs1 fields (counts outs).
   Proof.
-    intros SRC E. unfold job_inputs in E.
+    intros SRC E.
     eapply (job_fields_ok _ _ _ []) in E; eauto using ginv_init.
     destruct E as (H & G & F). rewrite app_nil_r in *. unfold counts.
     split.
@@ -696,7 +699,7 @@ Section Final.
     - intros fd o I ST. destruct (forall2_combine_map _ _ _ _ _ _ F I) as (b & -> & P & _).
       rewrite ST in P. destruct P as [(_ & _ & _ & A & B & _) _]. cbn. auto.
     - intros p I. destruct (ino_of fs0 p) as [i|] eqn:E; [|congruence].
-      unfold read. rewrite E, (g1 _ _ _ _ _ G _ _ E). cbn. f_equal. apply (g2 _ _ _ _ _ G). eauto.
+      unfold read. rewrite E, (g1 _ _ _ _ _ _ G _ _ E). cbn. f_equal. apply (g2 _ _ _ _ _ _ G). eauto.
   Qed.
 End Final.
 
@@ -788,21 +791,23 @@ Qed.
 
 Section Total.
   Variable tab : table.
-  Variables (dest : string) (fs0 : fsT).
-  Hypothesis EMPTY : forall p : path, fst p = dest -> ino_of fs0 p = None.   (* nothing in the target directory yet *)
+  Variables (dest : string) (fs0 : fsT) (avoid0 : list path).
+  (* the clash set starts with everything the target directory holds *)
+  Hypothesis SEED : forall p : path, fst p = dest -> ino_of fs0 p <> None -> In p avoid0.
 
-  Lemma ginv_dest fs avoid h : ginv dest fs0 fs avoid h ->
+  Lemma ginv_dest fs avoid h : ginv dest fs0 avoid0 fs avoid h ->
     forall p : path, fst p = dest -> ino_of fs p <> None -> In p avoid.
   Proof.
-    intros G p D I. apply (g6 _ _ _ _ _ G) in I. destruct I as [I|I]; [rewrite EMPTY in I; congruence|].
-    now apply (g5 _ _ _ _ _ G).
+    intros G p D I. apply (g6 _ _ _ _ _ _ G) in I. destruct I as [I|I].
+    - apply (g7 _ _ _ _ _ _ G). now apply SEED.
+    - now apply (g5 _ _ _ _ _ _ G).
   Qed.
 
   Definition satisfiable (m sup : cmode) (f : fileset) : Prop :=
     select (inter m (narrow tab dest f sup)) <> None.
 
   Lemma run_total m sup l : forall s hprev done,
-    ginv dest fs0 (s_fs s) (s_avoid s) (s_log s ++ hprev) -> minv tab dest m sup (s_memo s) (s_log s) done ->
+    ginv dest fs0 avoid0 (s_fs s) (s_avoid s) (s_log s ++ hprev) -> minv tab dest m sup (s_memo s) (s_log s) done ->
     (forall f, In f l -> ino_of fs0 (snd f) <> None) -> (forall f, In f l -> satisfiable m sup f) ->
     exists r, run (copy_fileset ff_copy tab dest m sup) l s = Ok r.
   Proof.
@@ -812,7 +817,7 @@ Section Total.
       destruct (ff_copy_total (s_fs s) dest m (narrow tab dest f sup) (s_avoid s) f) as [[[[a b] c] d] ->]; eauto.
       - eapply ginv_dest; eauto.
       - destruct (ino_of fs0 (snd f)) eqn:I; [|exfalso; eapply SRC; eauto; now left].
-        rewrite (g1 _ _ _ _ _ G _ _ I). congruence.
+        rewrite (g1 _ _ _ _ _ _ G _ _ I). congruence.
       - apply SAT. now left. }
     rewrite E. pose proof E as E'.
     eapply (field_step _ ff_copy_contract) in E'; eauto; [|apply SRC; now left]. destruct E' as [G1 M1].
@@ -820,7 +825,7 @@ Section Total.
   Qed.
 
   Lemma nested_total m sup v avoid fs hprev :
-    ginv dest fs0 fs avoid hprev ->
+    ginv dest fs0 avoid0 fs avoid hprev ->
     (forall f, In f (leaves v) -> ino_of fs0 (snd f) <> None) ->
     (forall f, In f (leaves v) -> satisfiable m sup f) ->
     exists r, copy_nested_files ff_copy tab v dest m sup avoid fs = Ok r.
@@ -838,7 +843,7 @@ Section Total.
   Qed.
 
   Theorem copyfile_workflow_total fields : forall avoid fs hprev,
-    ginv dest fs0 fs avoid hprev ->
+    ginv dest fs0 avoid0 fs avoid hprev ->
     (forall v f, In v fields -> In f (leaves v) -> ino_of fs0 (snd f) <> None) ->
     exists r, copyfile_fields ff_copy tab dest fields avoid fs = Ok r.
   Proof.
@@ -852,7 +857,7 @@ Section Total.
   Qed.
 
   Theorem job_fields_total fields : forall avoid fs hprev,
-    ginv dest fs0 fs avoid hprev ->
+    ginv dest fs0 avoid0 fs avoid hprev ->
     (forall fd f, In fd fields -> is_staged fd = true -> In f (leaves (fd_value fd)) ->
                   ino_of fs0 (snd f) <> None /\ satisfiable (fd_mode fd) mode_any f) ->
     exists r, job_fields ff_copy tab dest fields avoid fs = Ok r.
@@ -883,28 +888,37 @@ Qed.
 
 Definition sources_exist (fs0 : fsT) (vs : list value) : Prop :=
   forall v f, In v vs -> In f (leaves v) -> ino_of fs0 (snd f) <> None.
-Definition dir_empty (fs0 : fsT) (dest : string) : Prop :=
-  forall p : path, fst p = dest -> ino_of fs0 p = None.
+
+Lemma dir_entries_spec fs d (p : path) : fst p = d -> ino_of fs p <> None -> In p (dir_entries fs d).
+Proof.
+  intros E I. unfold dir_entries. apply filter_In. split; [|now apply String.eqb_eq].
+  unfold ino_of in I. destruct (assoc path_eqb p (f_ino fs)) eqn:A; [|congruence].
+  apply (assoc_in _ path_eqb_spec) in A. change p with (fst (p, n)). now apply in_map.
+Qed.
 
 Lemma c33_collected copy_one (HC : copy_contract copy_one) tab dest fs0 fields outs fs1 av :
   sources_exist fs0 fields ->
   copyfile_workflow copy_one tab dest fields fs0 = Ok (outs, fs1, av) ->
   collected tab dest fs0 fs1 fields (map fst outs).
-Proof. intros. eapply copyfile_workflow_collected; eauto. Qed.
+Proof. unfold copyfile_workflow. intros. eapply copyfile_workflow_collected; eauto. Qed.
 
 Lemma c33_total tab dest fs0 fields :
-  dir_empty fs0 dest -> sources_exist fs0 fields ->
+  sources_exist fs0 fields ->
   exists r, copyfile_workflow ff_copy tab dest fields fs0 = Ok r.
-Proof. intros E S. eapply (copyfile_workflow_total tab dest fs0 E fields [] fs0 []); eauto using ginv_init. Qed.
+Proof.
+  intros S. unfold copyfile_workflow.
+  eapply (copyfile_workflow_total tab dest fs0 (dir_entries fs0 dest) (dir_entries_spec fs0 dest) fields _ fs0 []);
+    eauto using ginv_init.
+Qed.
 
 Definition C33_statement : Prop :=
   forall (tab : table) (dest : string) (fs0 : fsT) (fields : list value),
-    dir_empty fs0 dest -> sources_exist fs0 fields ->
+    sources_exist fs0 fields ->
     exists outs fs1 av, copyfile_workflow ff_copy tab dest fields fs0 = Ok (outs, fs1, av)
                         /\ collected tab dest fs0 fs1 fields (map fst outs).
 Lemma c33_full : C33_statement.
 Proof.
-  intros tab dest fs0 fields E S. destruct (c33_total tab dest fs0 fields E S) as [[[outs fs1] av] R].
+  intros tab dest fs0 fields S. destruct (c33_total tab dest fs0 fields S) as [[[outs fs1] av] R].
   exists outs, fs1, av. split; [exact R|]. eapply c33_collected; eauto using ff_copy_contract.
 Qed.
 
@@ -916,24 +930,26 @@ Lemma c34_staged copy_one (HC : copy_contract copy_one) tab dest fs0 fields outs
   (forall fd f, In fd fields -> is_staged fd = true -> In f (leaves (fd_value fd)) -> ino_of fs0 (snd f) <> None) ->
   job_inputs copy_one tab dest fields fs0 = Ok (outs, fs1, av) ->
   staged tab dest fs0 fs1 fields (counts outs).
-Proof. intros. eapply job_inputs_staged; eauto. Qed.
+Proof. unfold job_inputs. intros. eapply job_inputs_staged; eauto. Qed.
 
 Lemma c34_total tab dest fs0 fields :
-  dir_empty fs0 dest -> fields_ready tab dest fs0 fields ->
+  fields_ready tab dest fs0 fields ->
   exists r, job_inputs ff_copy tab dest fields fs0 = Ok r.
 Proof.
-  intros E S. eapply (job_fields_total tab dest fs0 E fields [] fs0 []); eauto using ginv_init.
+  intros S. unfold job_inputs.
+  eapply (job_fields_total tab dest fs0 (dir_entries fs0 dest) (dir_entries_spec fs0 dest) fields _ fs0 []);
+    eauto using ginv_init.
   intros fd f I ST L. destruct (S fd f I ST L) as [A B]. split; [exact A|now apply stageable_satisfiable].
 Qed.
 
 Definition C34_statement : Prop :=
   forall (tab : table) (dest : string) (fs0 : fsT) (fields : list field),
-    dir_empty fs0 dest -> fields_ready tab dest fs0 fields ->
+    fields_ready tab dest fs0 fields ->
     exists outs fs1 av, job_inputs ff_copy tab dest fields fs0 = Ok (outs, fs1, av)
                         /\ staged tab dest fs0 fs1 fields (counts outs).
 Lemma c34_full : C34_statement.
 Proof.
-  intros tab dest fs0 fields E S. destruct (c34_total tab dest fs0 fields E S) as [[[outs fs1] av] R].
+  intros tab dest fs0 fields S. destruct (c34_total tab dest fs0 fields S) as [[[outs fs1] av] R].
   exists outs, fs1, av. split; [exact R|]. eapply c34_staged; eauto using ff_copy_contract.
   intros fd f I ST L. now destruct (S fd f I ST L).
 Qed.
@@ -950,11 +966,9 @@ Definition ex_fields : list value :=
   [VCont CList [VFile ex_a; VFile ex_b];
    VCont CDict [VAtom "'k'" true; VCont CTuple [VFile ex_a; VCont CList [VFile ex_g; VFile ex_d; VFile ex_b]]]].
 
-Example ex_ready : dir_empty ex_fs "/wf" /\ sources_exist ex_fs ex_fields.
+Example ex_ready : sources_exist ex_fs ex_fields.
 Proof.
-  split.
-  - intros [d n] E. cbn in E. subst. unfold ino_of, ex_fs; cbn. reflexivity.
-  - intros v f [<-|[<-|[]]]; cbn; intros H; repeat (destruct H as [<-|H]; [discriminate|]); destruct H.
+  intros v f [<-|[<-|[]]]; cbn; intros H; repeat (destruct H as [<-|H]; [discriminate|]); destruct H.
 Qed.
 
 (* equal names from several directories, the same file in two fields, a name that looks like a counter *)
@@ -992,9 +1006,19 @@ Example shared_set_stages :
   | Err _ => False
   end.
 Proof. vm_compute. reflexivity. Qed.
-Example ex_job_ready : dir_empty ex_fs "/job" /\ fields_ready [] "/job" ex_fs ex_job.
+Example ex_job_ready : fields_ready [] "/job" ex_fs ex_job.
 Proof.
-  split.
-  - intros [d n] E. cbn in E. subst. reflexivity.
-  - intros fd f [<-|[<-|[]]] _; cbn; (intros [<-|[]]); (split; [discriminate|]); exists Copy; cbn; auto.
+  intros fd f [<-|[<-|[]]] _; cbn; (intros [<-|[]]); (split; [discriminate|]); exists Copy; cbn; auto.
 Qed.
+
+(* an output named like something the directory already holds gets the next free name *)
+Definition ex_fs_job : fsT :=
+  mkfs [(("/wf", "_job.pklz"), 9); (("/d1", "_job.pklz"), 1); (("/d2", "_job.pklz"), 2)] [(9, "ENGINE"); (1, "A"); (2, "B")].
+Example ex_seeded :
+  match copyfile_workflow ff_copy [] "/wf" [VCont CList [VFile ("File", ("/d1", "_job.pklz")); VFile ("File", ("/d2", "_job.pklz"))]] ex_fs_job with
+  | Ok (outs, fs1, _) =>
+      map fst outs = [VCont CList [VFile ("File", ("/wf", "_job (1).pklz")); VFile ("File", ("/wf", "_job (2).pklz"))]]
+      /\ read fs1 ("/wf", "_job.pklz") = Some "ENGINE"
+  | Err _ => False
+  end.
+Proof. vm_compute. split; reflexivity. Qed.
